@@ -72,8 +72,12 @@ def aggregate(pid, tier, seed, results, meta, wall):
             a[1] += d
         violations.extend(r.get('violations', []))
         spurious.extend(r.get('spurious', []))
-        valprob.extend([r['name']] + p for p in
-                       r.get('validation_problems', []))
+        for p in r.get('validation_problems', []):
+            if p and p[0] == 'mismatch':
+                cov['validation_runs_diverged'] = cov.get(
+                    'validation_runs_diverged', 0) + 1
+            else:
+                valprob.append([r['name']] + p)
         for rw in r.get('rewrites', []):
             rewrites.add(tuple(rw))
         per_job.append(dict(name=r['name'], paths=r.get('paths'),
